@@ -16,8 +16,8 @@ NEST_CAP = 200                      # C16_NEST_CAP of harness/fuzz_C16.cpp
 
 # tier -> (libFuzzer runs in total, jobs, time cap per process [s] or None)
 TIERS = {
-    "quick": (240000, 16, None),
-    "thorough": (16000000, 16, 5400),
+    "quick": (64000, 16, None),
+    "thorough": (6400000, 16, 5400),
 }
 
 RULE = (
@@ -89,7 +89,7 @@ def _joined_literals(paths):
 
 
 def _seed_texts():
-    texts, src = [], {}
+    texts, src, kinds = [], {}, []
     okl = []
     for d in ("examples", "tests/files"):
         okl += glob.glob(os.path.join(vlib.REPO, d, "**", "*.okl"), recursive=True)
@@ -99,11 +99,13 @@ def _seed_texts():
         except OSError:
             pass
     src["okl_files"] = len(texts)
+    kinds += ["okl"] * len(texts)
     tests = sorted(glob.glob(os.path.join(vlib.REPO, "tests/src/internal/lang/modes/*.cpp")) +
                    glob.glob(os.path.join(vlib.REPO, "tests/src/internal/lang/parser/*.cpp")))
     frag = v_fuzz.cpp_string_literals(tests)
     joined = _joined_literals(tests)
     texts += frag + joined
+    kinds += ["frag"] * len(frag) + ["joined"] * len(joined)
     src["test_literals"] = len(frag)
     src["test_literals_joined"] = len(joined)
     import p_C20
@@ -114,6 +116,7 @@ def _seed_texts():
         if len(k.okl) < MAX_LEN - 1:
             gen.append(k.okl.encode())
     texts += gen
+    kinds += ["gen"] * len(gen)
     src["generated_C20"] = len(gen)
     d2 = os.path.join(vlib.VERIF, "corpus", "C16")
     hand = []
@@ -121,28 +124,40 @@ def _seed_texts():
         if os.path.isfile(f):
             hand.append(open(f, "rb").read())
     texts += hand
+    kinds += ["hand"] * len(hand)
     src["corpus_C16"] = len(hand)
-    uniq, seen = [], set()
-    for t in texts:
+    uniq, ukinds, seen = [], [], set()
+    for t, kd in zip(texts, kinds):
         t = t.split(b"\0")[0]
         if t and t not in seen:
             seen.add(t)
             uniq.append(t)
-    return uniq, src
+            ukinds.append(kd)
+    return uniq, src, ukinds
 
 
 def _seed_dir(wd):
-    texts, src = _seed_texts()
+    """every seeded process executes the whole seed corpus first (~50-150 ms per kernel under ASan+UBSan), so the corpus is
+    kept lean: every .okl file, every hand-written seed and the smallest generated kernels get all 7 translators (string
+    source) plus one file-source input; the other texts get two or three rotating selectors (libFuzzer mutates the selector
+    byte itself; the selector characters are dictionary words)"""
+    texts, src, kinds = _seed_texts()
     items = []
-    for k, t in enumerate(texts):
-        # kernels: every translator; bare fragments of the tests (a closing brace, one declaration ...) never reach a
-        # translator-specific stage: one rotating translator is enough for them
-        whole = b"@kernel" in t or b"@outer" in t or b"@tile" in t
-        for s in (range(7) if whole else [k % 7]):
+    gen_small = sorted(len(t) for t, kd in zip(texts, kinds) if kd == "gen")[:6]
+    gen_small = gen_small[-1] if gen_small else 0
+    for k, (t, kd) in enumerate(zip(texts, kinds)):
+        if kd in ("okl", "hand") or (kd == "gen" and len(t) <= gen_small):
+            sel = list(range(7)) + [7 + k % 7]
+        elif kd == "gen":
+            sel = [k % 7, (k + 3) % 7, 7 + (k + 5) % 7]
+        elif kd == "joined":
+            sel = [k % 7, (k + 2) % 7, 7 + (k + 4) % 7]
+        else:                                  # bare fragments of the tests: they never reach a translator-specific stage
+            if len(t) < 6:
+                continue
+            sel = [k % 7] + ([7 + (k // 7) % 7] if k % 5 == 0 else [])
+        for s in sel:
             items.append(bytes([ord("0") + s]) + t)
-        # file source (parseFile): one translator per text, rotating
-        if whole or k % 4 == 0:
-            items.append(bytes([ord("0") + 7 + k % 7]) + t)
     src["seed_inputs"] = len(items)
     return v_fuzz.write_corpus(os.path.join(wd, "seeds"), items), src
 
